@@ -139,6 +139,21 @@ Definition no_dead_default (a : automaton) : Prop :=
   forall i s d, nth_error (astates a) i = Some s -> a_default s = Some d ->
                 pempty_complement (a_classes s) = false.
 
+Definition no_dead_defaultb (a : automaton) : bool :=
+  forallb (fun s => match a_default s with
+                    | Some _ => negb (pempty_complement (a_classes s))
+                    | None => true
+                    end) (astates a).
+
+Lemma no_dead_defaultb_iff a : no_dead_defaultb a = true <-> no_dead_default a.
+Proof.
+  unfold no_dead_defaultb, no_dead_default. rewrite forallb_forall. split.
+  - intros H i s d Hi Hd. specialize (H s (nth_error_In _ _ Hi)). rewrite Hd in H.
+    apply negb_true_iff. exact H.
+  - intros H s Hs. apply In_nth_error in Hs. destruct Hs as [i Hi].
+    destruct (a_default s) as [d|] eqn:Hd; auto. apply negb_true_iff. eapply H; eauto.
+Qed.
+
 Lemma forallb_combine_seq {A} (f : nat * A -> bool) (l : list A) : forall b,
   forallb f (combine (seq b (length l)) l) = true <->
   forall i s, nth_error l i = Some s -> f (b + i, s) = true.
